@@ -3,6 +3,7 @@ import VarproModel.Drv.PBuilder
 import VarproModel.Drv.SepModel
 import VarproModel.Drv.State
 import VarproModel.Drv.Fit
+import VarproModel.Drv.Stats
 /-!
 # driver — reads a case file (line protocol), runs the executable model on every case and
 prints one verdict line per case.  Imports only `Core/` and `Drv/` (no Mathlib), so it links.
@@ -16,6 +17,7 @@ def dispatch (focus : String) (c : Case) : String :=
   | "state" => handleState focus c
   | "fit" => handleFit focus c
   | "fault" => handleFault focus c
+  | "stats" => handleStats focus c
   | k => s!"corr=INTERNAL(unknown-kind-{k}) mon=ok nontrivial=0 tag=none"
 
 partial def loop (focus : String) (h : IO.FS.Stream) (cur : Option Case) : IO Unit := do
